@@ -129,7 +129,16 @@ fn api_sequence(stats: &mut Vec<&'static str>, rng: &mut Rng, board: &Board, d: 
             8 | 9 | 10 | 11 => {
                 // mostly legal moves, sometimes arbitrary triples, through the three checked ops
                 let legal: Vec<Mv> = b.legals().map(mv_back).collect();
-                let t = if !legal.is_empty() && rng.chance(5, 6) { *rng.pick(&legal) } else { random_triple(rng) };
+                let t = if !legal.is_empty() && rng.chance(5, 6) {
+                    let mut m = *rng.pick(&legal);
+                    // sometimes the right squares with the wrong promotion field (must be refused)
+                    if rng.chance(1, 5) {
+                        m.promo = if m.promo.is_some() { None } else { Some(*rng.pick(&[Kind::Q, Kind::N, Kind::R, Kind::B])) };
+                    }
+                    m
+                } else {
+                    random_triple(rng)
+                };
                 let r = match rng.below(3) {
                     0 => b.move_new(mv(t)),
                     1 => {
@@ -369,6 +378,48 @@ pub fn c07(c: &mut Collector, seed: u64, shard: u64, nshards: u64, thorough: boo
                 Err(_) => {
                     let site = LAST_PANIC.with(|l| l.borrow().clone());
                     c.violation("safe-api-panicked", &site, format!("search of {fen} with 2500 polls panicked at {site}"), obj().set("fen", fen.as_str()).set("expire_at_poll", 2500u64));
+                }
+            }
+        }
+    }
+    // 1c. over-populated sides (17-24 mobile men of one colour): the parser / builder must reject
+    //     them; if one is ever accepted, generating its moves overruns the fixed-capacity move list
+    if !small && shard < 2 {
+        for fen in [
+            "6k1/pppppppp/8/nnnnnnnn/n6n/8/8/K7 b - - 0 1",
+            "k7/8/8/N6N/NNNNNNNN/8/PPPPPPPP/6K1 w - - 0 1",
+            "6k1/pppppppp/nnnnnnnn/8/8/8/8/K7 b - - 0 1",
+            "k7/8/8/8/8/NNNNNNNN/PPPPPPPP/1K4NN w - - 0 1",
+            "rnbqkbnr/ppppppp1/8/8/8/P7/PPPPPPPP/RNBQKBNR w KQkq - 0 1",
+            "rnbqkbnr/pppppppp/p7/8/8/8/1PPPPPPP/RNBQKBNR b KQkq - 0 1",
+            "7k/8/8/8/PPPPPPPP/PPPPPPPP/NNNNNNN1/K7 w - - 0 1",
+            "k7/nnnnnnn1/pppppppp/pppppppp/8/8/8/7K b - - 0 1",
+            "6k1/pppppppp/8/nnnnnnnn/nn5n/8/8/K7 b - - 0 1",
+            "k7/8/8/N6N/NNNNNNNN/N7/PPPPPPPP/6K1 w - - 0 1",
+        ] {
+            c.count("overfull-side-inputs");
+            run_on(c, &mut rng, "overfull-side", fen.as_bytes(), &mut d, n_ops, budget);
+            // the same placement through the builder
+            c.eval();
+            c.journal(&format!("overfull via builder {fen}"));
+            let r = catch_unwind(AssertUnwindSafe(|| {
+                let p = Position::from_fen(fen).ok()?;
+                let mut bd = Board::builder();
+                for s in 0..64u8 {
+                    if let Some((cc, k)) = p.board[s as usize] {
+                        let _ = bd.place(pos(s), col(cc), kind(k));
+                    }
+                }
+                bd.turn(col(p.turn));
+                let b = bd.build().ok()?;
+                Some((b.legals().count(), b.to_string()))
+            }));
+            match r {
+                Ok(Some((n, _))) => d.u(n as u64),
+                Ok(None) => {}
+                Err(_) => {
+                    let site = LAST_PANIC.with(|l| l.borrow().clone());
+                    c.violation("safe-api-panicked", &site, format!("builder-assembled over-populated position {fen}: legals() panicked at {site}"), obj().set("fen", fen));
                 }
             }
         }
